@@ -40,6 +40,23 @@ fn problem(kind: usize, x0: f64, span_signed: f64) -> Prob {
                 linear_homogeneous: true,
             }
         }
+        3 => {
+            // starts at rest: y' = c (tau - y), y(0) = 0, so f(x0, y0) = 0 and the automatic
+            // initial step falls back to its absolute default
+            let c = 2.0 / span_signed;
+            Prob {
+                name: "starts at rest (scaled to span)".into(),
+                n: 1,
+                f: Arc::new(move |t, y, d| {
+                    let tau = c * (t - x0);
+                    d[0] = c * (tau - y[0]);
+                }),
+                jac: Some(Arc::new(move |_t, _y| vec![-c])),
+                flow: None,
+                y0: vec![0.0],
+                linear_homogeneous: false,
+            }
+        }
         _ => {
             // non-autonomous: y' = c * (-2 tau y^2 + cos(3 tau)), tau = c (t - x0), over tau in [0, 2]
             let c = 2.0 / span_signed;
@@ -201,7 +218,7 @@ pub fn run_check(replay: Option<Value>) -> i32 {
         dim("t_eval", &[false, true]),
         dim("dense", &[false, true]),
         dim("events", &evs),
-        dim("problem", &[0, 1, 2]),
+        dim("problem", &["decay(unscaled)", "oscillator", "nonautonomous", "starts-at-rest"]),
         dim("rtol", &tols),
     ];
     lattice(&mut rep, "c03", &dims, only.as_deref(), |key, idx| {
